@@ -14,7 +14,7 @@ def run(ctx):
     # identifier sensitivity: every ordered pair of d0 and its single-attribute variants on one prefix
     dn = {"d0", "dSrc", "dId", "dLp", "dMed", "dAsp", "dComm", "dOid", "dOid2", "dCl"}
     runs = [("gen add-path sharing", base, ro.PFX2),
-            ("gen identifier sensitivity", dict(base, Names=dn, MaxDepth=3, MaxPaths=2), ro.PFX1)]
+            ("gen identifier sensitivity", dict(base, Names=dn, MaxDepth=4, MaxPaths=2), ro.PFX1)]
     sims = [("sim", dict(base, Names={"e1", "e2", "e3", "i1", "i2", "st", "ot"}, Pols={"accept", "setmed", "prep"}, MaxPaths=4),
              ro.PFX2, 3000 if big else 400, 16)]
     ctx.rule = ("one witness per transition of the RibOut graph on add-path sessions (2 and 3 paths) over 2 prefixes x 3 paths, so that "
